@@ -509,3 +509,38 @@ fn u6_dua_self_adopted_1_1() {
     kani::assert(x.inner().is_uninit() && x.inner().weak() == w - 1, "U6.dua.ends_gone_weak_minus_one");
     core::mem::forget(x);
 }
+
+/// three-member ring a -> b -> c -> a (thorough tier)
+#[kani::proof]
+#[kani::unwind(7)]
+fn u6_drop_cycle_ring3() {
+    let a = Rc::new(1u8);
+    let b = Rc::new(2u8);
+    let c = Rc::new(3u8);
+    let (wa, wb, wc): (usize, usize, usize) = (kani::any(), kani::any(), kani::any());
+    kani::assume(wa >= 2 && wb >= 2 && wc >= 2);
+    set_counts(&a, 1, wa);
+    set_counts(&b, 1, wb);
+    set_counts(&c, 1, wc);
+    install(&a, fwd(&b), 1);
+    install(&b, bwd(&a), 1);
+    install(&b, fwd(&c), 1);
+    install(&c, bwd(&b), 1);
+    install(&c, fwd(&a), 1);
+    install(&a, bwd(&c), 1);
+    tag_table(&a, 1);
+    tag_table(&b, 2);
+    tag_table(&c, 3);
+    let mut m: HashMap<Link<u8>, usize> = HashMap::default();
+    m.insert(fwd(&a), 1);
+    m.insert(fwd(&b), 1);
+    m.insert(fwd(&c), 1);
+    register_member(0, &a, wa);
+    register_member(1, &b, wb);
+    register_member(2, &c, wc);
+    unsafe { drop_cycle(m) };
+    kani::assert(a.inner().is_uninit() && b.inner().is_uninit() && c.inner().is_uninit(), "U6.drop_cycle.every_key_of_the_orphan_map_ends_gone");
+    kani::assert(a.inner().weak() == wa - 1 && b.inner().weak() == wb - 1 && c.inner().weak() == wc - 1, "U6.drop_cycle.each_member_weak_minus_one_exactly_once");
+    kani::assert(unsafe { vmap::TAGGED_DROPS } == 3, "U6.drop_cycle.each_member_table_released_exactly_once");
+    core::mem::forget((a, b, c));
+}
